@@ -107,9 +107,6 @@ Definition op_okb3 (w : world) (o : op) : bool :=
     match c with CAutocharge | CCharge => NAtidb w tid | _ => true end
   | ONewSolsys x => negb (is_some (get_ss w x))
   | OCharge m _ => match get_item w m with Some mit => directb mit | None => true end
-  | OSolsysAdd x f =>
-    let w1 := upd_fit (ss_set_fits w x (set_add neqb (ss_fit_list w x) f)) f (fun ft => fit_set_solsys ft (Some x)) in
-    nodupb Nat.eqb (fit_list w1 f) && forallb (dir_unloadedb w1) (fit_list w1 f)
   | OSource x new =>
     match get_ss w x with
     | Some y =>
